@@ -124,7 +124,7 @@ fn gen_delivery(reqs: &[ReqItem], cfg: &RunCfg, out: &mut Outcome) -> Delivery {
 }
 
 pub fn generate(cfg: &RunCfg, out: &mut Outcome) -> Scenario {
-    let reqs = sess::gen_sequence(0, &SeqOpts { min: 1, max: 6, allow_malformed: false, allow_close: true, max_body: 2600, allow_delay: true });
+    let reqs = sess::gen_sequence(0, &SeqOpts { min: 1, max: 6, allow_malformed: false, allow_close: true, max_body: 2600, allow_delay: true, shapes: true });
     // Connection: close only makes sense on the last request of a pipelined stream
     let mut reqs = reqs;
     if let Some(pos) = reqs.iter().position(|r| r.wants_close()) {
@@ -133,7 +133,7 @@ pub fn generate(cfg: &RunCfg, out: &mut Outcome) -> Scenario {
     // a malformed request has no defined extent, so only the LAST one of a stream may be malformed: everything before it
     // must be served and it must be refused exactly once, however the bytes are cut
     if !reqs.iter().any(|r| r.wants_close()) && t::chance(1, 5) {
-        let mut last = sess::gen_sequence(9, &SeqOpts { min: 1, max: 1, allow_malformed: false, allow_close: false, max_body: 0, allow_delay: false }).remove(0);
+        let mut last = sess::gen_sequence(9, &SeqOpts { min: 1, max: 1, allow_malformed: false, allow_close: false, max_body: 0, allow_delay: false, shapes: false }).remove(0);
         last.malformed = sess::malform(&last.spec);
         if last.malformed.is_some() {
             reqs.push(last);
@@ -340,12 +340,17 @@ fn execute(sc: &Scenario, out: &mut Outcome) {
                 }
             }
             Some(Ok(r)) => {
-                if r.status != 200 || r.header("X-Dump").is_none() {
+                let shape = it.spec.headers.iter().find(|(n, _)| n == "x-shape").map(|(_, v)| String::from_utf8_lossy(v).into_owned()).unwrap_or_default();
+                if r.status != (if shape == "204" { 204 } else { 200 }) || r.header("X-Dump").is_none() {
                     out.violate("baseline-matches-reference", format!("status-{}", r.status), format!("baseline request {k}: {}; request={shown}", describe(&b.resps[k])));
                     return;
                 }
-                if !it.is_head() {
-                    if let Some((aspect, msg)) = sess::dump_diff(&r.body_text(), &it.spec) {
+                if !shape.is_empty() {
+                    out.probe("c06.response_without_content_length");
+                }
+                if !it.is_head() && shape != "204" {
+                    let text = if shape == "stream" { r.body_text().lines().filter_map(|l| l.strip_prefix("data: ").map(|s| s.to_string())).collect::<Vec<_>>().join("\n") } else { r.body_text() };
+                    if let Some((aspect, msg)) = sess::dump_diff(&text, &it.spec) {
                         out.violate("baseline-matches-reference", aspect, format!("baseline request {k}: {msg}; request={shown}"));
                         return;
                     }
